@@ -6,8 +6,10 @@ clean tree -> demo passes; patched -> builds, demo fails; then runs ./check agai
 import sys, os, json, subprocess, shutil, time
 pid, k = sys.argv[1], sys.argv[2]
 checks = sys.argv[3:] or [pid]
-wt = f"/tmp/seed/{pid}/wt"
-out = f"/tmp/seed/{pid}/out/{k}"
+root = os.environ.get("SEED_ROOT", "/tmp/seed")
+koff = int(os.environ.get("SEED_KOFF", "0"))
+wt = f"{root}/{pid}/wt"
+out = f"{root}/{pid}/out/{k}"
 env = dict(os.environ, GOFLAGS="-mod=mod", GOPROXY="off")
 def sh(cmd, cwd=wt, timeout=1200):
     p = subprocess.run(cmd, shell=True, cwd=cwd, env=env, stdout=subprocess.PIPE, stderr=subprocess.STDOUT, text=True, timeout=timeout)
@@ -51,7 +53,7 @@ for c in checks:
 res["checks"] = det
 clean()
 shutil.rmtree(f"/verif/build/seed-{pid}", ignore_errors=True)
-dst = f"/verif/seeded/{pid}-{k}"
+dst = f"/verif/seeded/{pid}-{int(k) + koff}"
 if os.path.exists(dst):
     shutil.rmtree(dst)
 shutil.copytree(out, dst)
